@@ -423,34 +423,34 @@ class LogicalType(type):  # noqa
                         return val
 
         elif cls.combinator == "^":
-            # 1. check EXACT identical type
-            # because args are de-duplicate, so value can only end up one type
-            for con in cls.args:
-                if type(value) == con:
-                    return value
-
+            # every condition is checked against the ORIGINAL input (not the value converted by
+            # an earlier condition), and a value of the exact type of one condition is still
+            # checked against the others: exactly one condition must accept, in any order
             xor = None
+            result = value
 
             for con in cls.args:
                 with context.enter(cls.combinator) as new_context:
                     try:
-                        value = new_context.transformer(value, con)
-                        if xor is None:
-                            xor = con
-                        else:
-                            context.handle_error(
-                                exc.OneOfViolatedError(
-                                    f"More than 1 conditions ({xor}, {con}) is True in XOR conditions"
-                                )
-                            )
-                            xor = None
-                            break
+                        val = new_context.transformer(value, con)
                     except Exception as e:
                         context.collect_tmp_error(e)
+                        continue
+                if xor is None:
+                    xor = con
+                    result = val
+                else:
+                    error = exc.OneOfViolatedError(
+                        f"More than 1 conditions ({xor}, {con}) is True in XOR conditions"
+                    )
+                    xor = None
+                    context.handle_error(error)
+                    break
 
             if xor is not None:
                 # only one condition is satisfied in XOR
                 context.clear_tmp_error()
+                value = result
 
         elif cls.combinator == "~":
             for con in cls.args:
